@@ -1,0 +1,7 @@
+//go:build !verif
+
+package renderer
+
+import "sync"
+
+func simPoint(string, *sync.Once) {}
